@@ -82,6 +82,18 @@ CHECKS = {
              "quantity specs are checked against Python's own number formatting, str(q) round trips and the # modifier.",
         design_ref="DESIGN.md section 3, C09",
         note="babel / locale output is outside the statement; LaTeX / siunitx are read back only for names and symbols made of letters."),
+    "C10": dict(
+        technique="TLA+ spec (DefFile: abstract lines, Load as a fold, well-formedness) model-checked with TLC over all line orders, paddings and eight kinds of damage; every TLC variant written out as text and loaded through five loading paths in three numeric types; bundled files compared across loading paths",
+        text="TLC checks for a core file (prefix, bases, derived dimension, forward-referring derived units, alias) in all 720 orders of its unit and prefix "
+             "lines x 3 paddings that Load gives the same meaning and exactly what is written, and that each of eight damaged variants (invalid name, "
+             "mixed dimension/unit reference, cycle, non-numeric / unknown modifier, unknown directive, unterminated block, dangling reference) is not "
+             "well-formed; variants are rendered as text in four layouts and loaded from a file, an iterable, define() calls, a cold and a warm disk "
+             "cache in float / Decimal / Fraction registries, and names, symbols, aliases, dimensionalities, exact factors, prefix values and listings "
+             "compared with the specification; damaged files must raise at load or on first use; the bundled files are loaded through four paths and "
+             "every definition's answers compared.",
+        design_ref="DESIGN.md section 3, C10",
+        note="Groups / systems / contexts as written are validated by C14 / C11 (Trace_Sys, Trace_Ctx) from the same reader; load_definitions after "
+             "construction ignoring @defaults is recorded under C13."),
     "C11": dict(
         technique="TLA+ spec (PintRegistry instance MC_C11) model-checked with TLC for shortest-chain / precedence / parameter laws; every TLC stack realised through nine activation forms on real registries with set-valued comparison; bundled-context conversions validated by the TLC trace spec Trace_Ctx in fingerprint arithmetic",
         text="TLC explores every stack of up to three activations over contexts with colliding edges, a direct edge competing with a two-step chain, "
